@@ -15,6 +15,7 @@ import GitAiModel.Driver.Redact
 import GitAiModel.Driver.Routing
 import GitAiModel.Driver.Profile
 import GitAiModel.Driver.Sys
+import GitAiModel.Driver.Rewrite
 import GitAiModel.Driver.Conc
 import GitAiModel.Driver.Wrapper
 import GitAiModel.Driver.HookMode
@@ -35,6 +36,7 @@ def handlers : List (String → Json → Option (Except String Json)) := [
   RoutingD.handle,
   ProfileD.handle,
   SysD.handle,
+  RewriteD.handle,
   ConcD.handle,
   WrapperD.handle,
   HookModeD.handle
